@@ -28,6 +28,22 @@ CORPUS.update({
     "same-name-chain": 'Signal c = ("signal-X", 7);\nSignal s = (c + 1) | "signal-X";\nSignal a = (s + 1) | "signal-X";\nSignal b = (s * a) | "signal-X";\n',
 })
 
+CORPUS.update({
+    # comparisons of two same-typed values (operands on different wire colours), plain and with ':'
+    "cmp-same-type": 'Signal a = ("signal-A", 5);\nSignal b = ("signal-A", 7);\nSignal lt = a < b;\nSignal x = ("signal-X", 6);\nSignal y = ("signal-X", 2);\nSignal ge = (x >= y) : 9;\n',
+})
+
+# programs whose interest is geometric (used by C08 / C18 / C10, not by the CLI / determinism products)
+LAYOUT = {
+    # a user entity standing exactly where the relay chain of a long connection wants its first pole
+    "relay-obstacle-neg-x": 'Entity chest = place("steel-chest", 0, 0);\nEntity far_lamp = place("small-lamp", -30, 0);\nEntity near_lamp = place("small-lamp", -7, 0);\nBundle items = chest.output;\nfar_lamp.enable = all(items) > 100;\nnear_lamp.enable = all(items) > 5;\n',
+    "relay-obstacle-neg-y": 'Entity chest = place("steel-chest", 0, 0);\nEntity far_lamp = place("small-lamp", 0, -30);\nEntity near_lamp = place("small-lamp", 0, -7);\nBundle items = chest.output;\nfar_lamp.enable = all(items) > 100;\nnear_lamp.enable = all(items) > 5;\n',
+    "relay-obstacle-pos-x": 'Entity chest = place("steel-chest", 0, 0);\nEntity far_lamp = place("small-lamp", 30, 0);\nEntity near_lamp = place("small-lamp", 8, 0);\nBundle items = chest.output;\nfar_lamp.enable = all(items) > 100;\nnear_lamp.enable = all(items) > 5;\n',
+    "relay-obstacle-row": 'Entity chest = place("steel-chest", 0, 0);\nEntity far_lamp = place("small-lamp", -28, -21);\nBundle items = chest.output;\nfar_lamp.enable = all(items) > 100;\nfor i in 3..9 {\n  Entity l = place("small-lamp", 0 - i, 0 - (i * 3) / 4);\n  l.enable = any(items) > i;\n}\n',
+    # one source fanning out to sinks of which one is 40 tiles from all the others
+    "fanout-far": 'Signal a = ("signal-A", 4);\nSignal lit = (a * 3) > 10;\nEntity l0 = place("small-lamp", 0, 0);\nEntity l1 = place("small-lamp", 2, 0);\nEntity l2 = place("small-lamp", 40, 0);\nl0.enable = lit > 0;\nl1.enable = lit > 0;\nl2.enable = lit > 0;\n',
+}
+
 SIZED = {
     "lamps-10": 'Signal a = ("signal-A", 3);\nfor i in 0..10 {\n    Entity l = place("small-lamp", i, -6);\n    l.enable = a > i;\n}\n',
     "combs-60": 'Signal a = ("signal-A", 3);\n' + "".join(f"Signal r{i} = (a + {i}) * {i + 2};\n" for i in range(28)),
